@@ -428,6 +428,91 @@ def _ifname_cases():
              "cps": [ord(c) for c in os.fsdecode(nm)]} for nm in IFNAME_POOL]
 
 
+# ---- caller-controlled strings with printf conversions on the FAILURE branches, debug mode on (wave 8)
+FMT_MARK = "qZ7"
+FMT_CONVS = ["%s", "%s%s%s%s", "%n", "%1$s", "%d", "%999d", "%%", "100%done", "%x%x%x%x%n", "%s%s%n", "%p%p", "%.0s%hhn", "%*d", "%ls", "%c%c",
+             "%", "%5$n", "_"]
+FMT_NIC_CONVS = ["%s", "%s%s%s%s", "%n", "%1$s", "%d", "%999d", "%%", "100%done", "%s%s%n", "_"]
+FMT_NIC_EPS = ["net_if_mtu", "net_if_flags", "net_if_is_running", "net_if_duplex_speed"]
+FMT_ALPH = ["%s", "%n", "%d", "%x", "%p", "%ld", "%llu", "%c", "%%", "%5$s", "%*s", "%.9999s", "%hn", "%S", "%f", "%a", "ab", "/", ".", "%"]
+
+
+def _fmt_cases(rng, tier):
+    """Systematic block (never sampled): every target x every conversion string.  The string is MARK + conversions + 'Z'; paths
+    are made inside the worker's private directory where nothing of that name exists (failure branch ENOENT), 'notdir' puts a
+    regular file in the way (ENOTDIR).  Each case = two child interpreters (PSUTIL_DEBUG unset / =1) of the sanitizer build."""
+    out = []
+
+    def add(target, conv, how="missing"):
+        out.append({"kind": "fmt", "cls": "fmt-" + target.replace("psutil.", "api-").replace("cext.", "c-") + ("" if how == "missing" else "-" + how),
+                    "target": target, "how": how, "name": FMT_MARK + conv + "Z"})
+    for conv in FMT_CONVS:
+        add("cext.disk_partitions", conv)
+        add("psutil.disk_partitions", conv)
+    for conv in FMT_CONVS[:8]:
+        add("cext.disk_partitions", conv, "notdir")
+    for ep in FMT_NIC_EPS:
+        for conv in FMT_NIC_CONVS:
+            add(ep, conv)
+    for _ in range({"quick": 6, "thorough": 150, "search": 10}[tier]):
+        conv = "".join(rng.choice(FMT_ALPH) for _ in range(rng.randint(1, 8)))
+        add(rng.choice(["cext.disk_partitions", "psutil.disk_partitions"] + FMT_NIC_EPS), conv, "missing")
+    return out
+
+
+FMT_CHILD = r"""
+import json, os, sys
+spec = json.loads(os.environ["C17_FMT_SPEC"])
+import psutil
+from psutil import _psplatform
+cext, cext_posix = _psplatform.cext, _psplatform.cext_posix
+t, s = spec["target"], spec["s"]
+def call():
+    if t == "cext.disk_partitions":
+        return cext.disk_partitions(s)
+    if t == "psutil.disk_partitions":
+        psutil.PROCFS_PATH = s
+        return psutil.disk_partitions(all=True)
+    if t == "net_if_duplex_speed":
+        return cext.net_if_duplex_speed(s)
+    return getattr(cext_posix, t)(s)
+sys.stderr.write("\nC17-CALL-BEGIN\n"); sys.stderr.flush()
+try:
+    out = ["val", repr(call())[:200]]
+except OSError as e:
+    fn = e.filename
+    out = ["oserror", e.errno, None if fn is None else os.fsencode(fn).hex(), type(e).__name__]
+except BaseException as e:
+    out = ["exc", type(e).__name__, str(e)[:200]]
+sys.stderr.flush()
+sys.stdout.write("C17RESULT " + json.dumps(out) + "\n")
+"""
+
+
+def _fmt_child(spec, debug, timeout=50):
+    import subprocess
+    import sys
+    env = dict(os.environ)
+    env.pop("PSUTIL_DEBUG", None)
+    if debug:
+        env["PSUTIL_DEBUG"] = "1"
+    env["C17_FMT_SPEC"] = json.dumps(spec)
+    try:
+        r = subprocess.run([sys.executable, "-c", FMT_CHILD], env=env, stdin=subprocess.DEVNULL, stdout=subprocess.PIPE, stderr=subprocess.PIPE,
+                           timeout=timeout)
+    except subprocess.TimeoutExpired:
+        return {"rc": "timeout", "out": None, "err": [], "san": ""}
+    res = None
+    for ln in r.stdout.decode("utf-8", "replace").splitlines():
+        if ln.startswith("C17RESULT "):
+            res = json.loads(ln[10:])
+    err = r.stderr.decode("latin-1")
+    tail = err.split("\nC17-CALL-BEGIN\n", 1)[1] if "\nC17-CALL-BEGIN\n" in err else err
+    san = " | ".join(ln for ln in tail.splitlines() if "runtime error" in ln or "ERROR: AddressSanitizer" in ln or "SUMMARY" in ln
+                     or "%n in writable" in ln or "Fatal Python error" in ln)[:500]
+    return {"rc": r.returncode, "out": res, "err": [ln[:300] for ln in tail.splitlines()][:12], "san": san}
+
+
 def _threads_cases(rng, tier):
     """2-4 free-running threads overlapping inside the same entry point: disk_partitions() on the same and on different
     mounts files of 200-400 entries (cext level and public API), users() on one utmp file, the NIC ioctls / net_if_stats()
@@ -584,6 +669,7 @@ def gen_cases(rng, tier):
     cases.extend(_ifaddrs_cases(rng, {"quick": 10, "thorough": 150, "search": 20}[tier]))
     cases.extend(_seq_cases(rng, {"quick": 5, "thorough": 120, "search": 15}[tier]))
     cases.extend(_threads_cases(rng, tier))
+    cases.extend(_fmt_cases(rng, tier))
     if tier != "search":
         cases.extend(_ifname_cases())
     if tier != "search":
@@ -647,6 +733,9 @@ def coq_term(case):
         return "run_entry %s %s %s" % (G.bo(FIXED_IOPRIO), ENTRY_COQ[case["ep"]], G.lst([_pyval(a) for a in case["args"]]))
     if k == "ionice":
         return "run_ionice %s 0 %s %s" % (G.bo(FIXED_IOPRIO), G.z(case["ioclass"]), G.z(case["value"] or 0))
+    if k == "fmt":
+        ep = {"cext.disk_partitions": "disk_partitions", "psutil.disk_partitions": "disk_partitions"}.get(case["target"], case["target"])
+        return "run_entry %s %s %s" % (G.bo(FIXED_IOPRIO), ENTRY_COQ[ep], G.lst([_pyval(_ps(case["name"]))]))
     if k == "ifname":
         return "run_ifname %s %s %s" % (G.bo(FIXED_IFNAME), _hb(case["name"]), G.zs(case["cps"]))
     if k == "threads":
@@ -698,6 +787,8 @@ def coq_struct(case, raw):
                 raw = T("Exc", T("UnicodeError"))
         os_reached = isinstance(raw, dict) and raw.get("t") == "Os"
         return {"cres": raw, "model": None if os_reached else raw, "spec": None}
+    if k == "fmt":
+        return {"cres": raw, "model": None, "spec": None}
     if k == "ifname":
         nm = [{"b": case["name"]}]
         return {"model": [raw[0], raw[1], Val(nm)], "spec": [Val(nm), Val(nm), Val(nm)]}
@@ -812,6 +903,39 @@ def judge(case, coq, impl):
         return Verdict("skip", str(impl.get("a")))
     if k in ("entry", "ionice"):
         return _judge_call(case.get("ep"), coq["cres"], impl)
+    if k == "fmt":
+        nm = case["name"].encode()
+        nic = case["target"] in FMT_NIC_EPS
+        cres = coq["cres"]
+        want = nm[:15] if nic else nm
+        if not (isinstance(cres, dict) and cres.get("t") == "Os" and cres["a"][-1] == {"b": want.hex()}):
+            return Verdict("corr", "model: the string %r does not reach the OS call byte for byte (%s)" % (case["name"], str(cres)[:200]))
+        if not isinstance(impl, dict) or "on" not in impl:
+            return Verdict("violation", "crash / sanitizer abort: %s" % (str(impl)[:400],))
+        what = "%s(%r) where the %s (failure branch)" % (case["target"], case["name"], "interface does not exist" if nic else
+                                                          "file is missing" if case["how"] == "missing" else "path runs through a regular file")
+        for mode in ("off", "on"):
+            r = impl[mode]
+            if r["rc"] != 0 or r["out"] is None:
+                return Verdict("violation", "%s with PSUTIL_DEBUG %s: the interpreter died / sanitizer report (exit status %s) instead of raising: %s" % (
+                    what, "unset" if mode == "off" else "=1", r["rc"], r["san"] or " | ".join(r["err"][-4:])))
+        off, on = impl["off"]["out"], impl["on"]["out"]
+        if not nic:
+            exp = ["oserror", 2 if case["how"] == "missing" else 20, impl["path"], "FileNotFoundError" if case["how"] == "missing" else "NotADirectoryError"]
+            if off != exp:
+                return Verdict("violation", "%s: demanded a clean OSError errno/filename %s, got %s" % (what, exp, off))
+        elif off[0] != "oserror" or off[2] is not None:
+            return Verdict("violation", "%s: demanded OSError from the ioctl, got %s" % (what, off))
+        if on != off:
+            return Verdict("violation", "%s: with PSUTIL_DEBUG=1 the outcome is %s, without it %s" % (what, on, off))
+        full = bytes.fromhex(impl["s"]).decode("latin-1")
+        lit = [full, full[:15]] if nic else [full]
+        for mode in ("off", "on"):
+            for ln in impl[mode]["err"]:
+                if FMT_MARK in ln and not any(x in ln for x in lit):
+                    return Verdict("violation", "%s with PSUTIL_DEBUG %s: the diagnostic on stderr does not show the string literally (it was "
+                                   "interpreted as a format?): %r" % (what, "unset" if mode == "off" else "=1", ln))
+        return Verdict("ok")
     if k == "threads":
         if coq["sim"] != [True, False]:
             return Verdict("corr", "interleaving model: GIL variant consistent / no-GIL variant consistent = %s (expected [True, False])" % (coq["sim"],))
@@ -1187,6 +1311,27 @@ def impl_run(case, coq, env):
             else:
                 fresh.append(_iso(lambda st=st: step(st, {"fds": []})))
         return {"seq": seq, "fresh": fresh}
+    if k == "fmt":
+        nm = case["name"]
+        if case["target"] in FMT_NIC_EPS:
+            sarg, path = nm, None
+        else:
+            base = os.path.join(work, "fmt")
+            os.makedirs(base, exist_ok=True)
+            if case["how"] == "notdir":
+                with open(os.path.join(base, nm), "w") as f:
+                    f.write("x")
+                sarg = os.path.join(base, nm, "mounts")
+            else:
+                sarg = os.path.join(base, nm)
+                assert not os.path.lexists(sarg)
+            path = os.fsencode(sarg + "/self/mounts" if case["target"] == "psutil.disk_partitions" else sarg).hex()
+        spec = {"target": case["target"], "s": sarg}
+        try:
+            return {"s": os.fsencode(sarg).hex(), "path": path, "off": _fmt_child(spec, False), "on": _fmt_child(spec, True)}
+        finally:
+            if path is not None and case["how"] == "notdir":
+                os.unlink(os.path.join(base, nm))
     if k == "ifaddrs":
         from props import _c17_ifshim as S
         so = S.build(work)
